@@ -141,6 +141,20 @@ def run_case(ctx, case):
             ctx.check("rejects_non_face", True, s2)
         except Exception as e:
             ctx.check("rejects_non_face", False, dict(s2, exc=core.exc_sig(e)), {"exc": repr(e)})
+    # ... also when stored element-first with a trailing dimension that happens to have n_face entries (levels, members)
+    for kind, n in (("n_node", m.n_node), ("n_edge", n_edge)):
+        for dims_, shp in (([kind, "lev"], (n, m.n_face)), (["t", kind, "lev"], (2, n, m.n_face))):
+            if n * m.n_face > 400000:
+                continue
+            arr = U.UxDataArray(rng.normal(size=shp), dims=dims_, uxgrid=g, name="w")
+            s2 = {"kind": kind, "layout": "element_first_trailing_size_n_face", "rank": len(shp)}
+            try:
+                rr = arr.integrate(**kw)
+                ctx.check("rejects_non_face", False, s2, {"returned_dims": list(getattr(rr, "dims", [])), "mesh": d, "n_face": m.n_face, "n": n})
+            except ValueError:
+                ctx.check("rejects_non_face", True, s2)
+            except Exception as e:
+                ctx.check("rejects_non_face", False, dict(s2, exc=core.exc_sig(e)), {"exc": repr(e)})
     if lead or rule is not None or coincide:
         ctx.mark_nontrivial()
     ctx.observe("meshes")
